@@ -80,6 +80,18 @@ def check_nodes(nodelist, doc, want_classes=None):
     return None
 
 
+def helpers_agree(nodes, when):
+    vals, paths, items = nodes.values(), nodes.paths(), nodes.items()
+    want_paths = [normpath.render(tuple(n.location)) for n in nodes]
+    if len(vals) != len(nodes) or any(v is not n.value for v, n in zip(vals, nodes)):
+        return fail("helpers:stale-values", f"values() disagrees with the nodes {when}", None, None)
+    if paths != want_paths:
+        return fail("helpers:stale-paths", f"paths() disagrees with the nodes {when}", want_paths[:4], paths[:4])
+    if [p for p, _ in items] != want_paths or any(v is not n.value for (_, v), n in zip(items, nodes)):
+        return fail("helpers:stale-items", f"items() disagrees with the nodes {when}", want_paths[:4], [p for p, _ in items][:4])
+    return None
+
+
 def fail(bucket, what, expected, observed):
     return {"bucket": bucket, "what": what, "expected": expected, "observed": observed}
 
@@ -103,6 +115,18 @@ def examine(case):
     except Exception as e:  # noqa: BLE001
         return fail(f"find-raised:{type(e).__name__}", f"find({q!r}) raised {type(e).__name__}: {e}", None, repr(e))
     f = check_nodes(nodes, doc)
+    if f is None and len(nodes) >= 2:
+        # a nodelist is a list: after the caller reorders it in place the helpers must follow the nodes
+        nodes.paths(), nodes.items(), nodes.values()
+        nodes.reverse()
+        f = helpers_agree(nodes, "after reverse()")
+        if f is None:
+            nodes[0], nodes[-1] = nodes[-1], nodes[0]
+            nodes.sort(key=lambda n: repr(n.location))
+            f = helpers_agree(nodes, "after sort()")
+        if f is None:
+            nodes.pop()
+            f = helpers_agree(nodes, "after pop()")
     if f and case.get("kind") == "sweep":
         f["what"] = f"member-name sweep U+{case['lo']:04X}-U+{case['hi'] - 1:04X}: " + f["what"]
     return f
